@@ -32,6 +32,10 @@ type Client struct {
 	AllowedScopes         []string // nil = every scope allowed
 	Keys                  []ClientKey
 	LoginURLPrefix        string // "" => "/login?authRequestID="
+
+	// scopes the client excludes from ID tokens / from (JWT) access tokens (C06): what RestrictAdditionalIdTokenScopes /
+	// RestrictAdditionalAccessTokenScopes filter out; nil = the identity
+	IDTokenScopeDrop, AccessTokenScopeDrop []string
 }
 
 const defaultLoginURLPrefix = "/login?authRequestID="
@@ -54,9 +58,27 @@ func (c *Client) AccessTokenType() op.AccessTokenType                      { ret
 func (c *Client) DevMode() bool                                            { return c.Dev }
 func (c *Client) IDTokenUserinfoClaimsAssertion() bool                     { return c.AssertUserinfo }
 func (c *Client) ClockSkew() time.Duration                                 { return c.Skew }
-func (c *Client) RestrictAdditionalIdTokenScopes() func([]string) []string { return identity }
+func (c *Client) RestrictAdditionalIdTokenScopes() func([]string) []string { return c.idDrop() }
 func (c *Client) RestrictAdditionalAccessTokenScopes() func([]string) []string {
-	return identity
+	return dropScopes(c.AccessTokenScopeDrop)
+}
+
+func (c *Client) idDrop() func([]string) []string { return dropScopes(c.IDTokenScopeDrop) }
+
+// dropScopes: the restriction function of a client that excludes `drop` (identity when there is nothing to drop)
+func dropScopes(drop []string) func([]string) []string {
+	if len(drop) == 0 {
+		return identity
+	}
+	return func(scopes []string) []string {
+		out := make([]string, 0, len(scopes))
+		for _, s := range scopes {
+			if !slices.Contains(drop, s) {
+				out = append(out, s)
+			}
+		}
+		return out
+	}
 }
 
 func (c *Client) LoginURL(id string) string {
